@@ -61,6 +61,10 @@ THEOREMS = [
 # (No constant of that name can be an axiom: the forbidden-token scan rejects every Axiom/Parameter declaration.)
 AXIOM_ALLOW += [n for n, _ in THEOREMS]
 SHARD = 1350
+# experiments only (is a seeded change caught by the routes / the traces alone?): C18_NO_X=1 makes the executor
+# keep printing observation lines when one of its internal consistency checks fails
+import os as _os
+HARNESS_ENV = {"C18_NO_X": "1"} if _os.environ.get("C18_NO_X") else None
 SEARCH_MAX = 20000
 RULE = ("boundary set x boundary set of binary64 bit patterns, exhaustively (signed zeros, min/mid/max subnormals, "
         "MIN_POSITIVE, powers of two and their +-1ulp neighbours, 1-2^-53, 1+2^-52, 0.1, 1/3, huge/tiny exponents, "
